@@ -247,7 +247,13 @@ class CommandLineJob(Job):
             # Get from pidpath file
             from experimaestro.connectors import Process
 
-            pinfo = json.loads(self.pidpath.read_text())
+            try:
+                pinfo = json.loads(self.pidpath.read_text())
+            except ValueError:
+                # The scheduler was stopped while writing the file: the
+                # process cannot be identified
+                logger.warning("Cannot read the process file %s", self.pidpath)
+                return None
             p = Process.fromDefinition(self.launcher.connector, pinfo)
             if p is None:
                 return None
